@@ -73,6 +73,16 @@ Fixpoint unflat (l : list N) (fuel : nat) : list (N * list N) :=
            end
   end.
 
+(* the store dump (keys 0..K-1) after applying the operations in order *)
+Fixpoint set_nth_o (l : list (option N)) (i : nat) (x : option N) : list (option N) :=
+  match l, i with
+  | [], _ => []
+  | _ :: t, O => x :: t
+  | h :: t, Datatypes.S j => h :: set_nth_o t j x
+  end.
+Definition expect_store (ops : list pop) (st : list (option N)) : list (option N) :=
+  fold_left (fun st o => match o with Put k v => set_nth_o st (N.to_nat k) (Some v) | Del k => set_nth_o st (N.to_nat k) None end) ops st.
+
 Definition upd (o : ost) net' dec' cast' app' disc' dirty' known' : ost := OS net' (o_reg o) dec' cast' app' disc' dirty' known' (o_now o) (o_yes o) (o_illegit o).
 
 (* returns None on a property violation *)
@@ -118,7 +128,11 @@ Definition ostep (ptmos : list N) (o : ost) (e : ev) (ret : list N) (pre post : 
               (* prepare never touches the data *)
               if negb (loN_eqb (pd_store (nth_pd pre sh)) (pd_store (nth_pd post sh))) then None
               else match ret with
-                   | [0; h] => Some (OS (net0 ++ [MVote tx sh (VYes h)]) (o_reg o) (o_dec o) ((tx, sh) :: o_cast o) (o_applied o) (o_discarded o)
+                   | [0; h] =>
+                       (* a participant answers Yes only if no OTHER transaction holds a live lock on one of the keys *)
+                       if existsb (fun k => match nth (N.to_nat k) (pd_holders (nth_pd pre sh)) None with
+                                            | Some t => negb (N.eqb t tx) | None => false end) (map pop_key ops) then None else
+                       Some (OS (net0 ++ [MVote tx sh (VYes h)]) (o_reg o) (o_dec o) ((tx, sh) :: o_cast o) (o_applied o) (o_discarded o)
                                         (pair_del (tx, sh) (o_dirty o)) (o_known o) (o_now o)
                                         ((tx, sh, o_now o) :: filter (fun y => negb (N.eqb (fst (fst y)) tx && N.eqb (snd (fst y)) sh)) (o_yes o))
                                         (pair_del (tx, sh) (o_illegit o)))
@@ -132,6 +146,11 @@ Definition ostep (ptmos : list N) (o : ost) (e : ev) (ret : list N) (pre post : 
                   (* writes are applied only for a commit decision, and never when some participant discarded them *)
                   if negb (committed tx (o_dec o)) then None
                   else if existsb (fun y => N.eqb tx (fst y)) (o_discarded o) then None
+                  (* the acknowledged commit must have WRITTEN the transaction's operations on this shard *)
+                  else if negb (loN_eqb (pd_store (nth_pd post sh)) (expect_store (reg_ops o tx sh) (pd_store (nth_pd pre sh)))) then None
+                  (* a transaction already applied on this shard is finished there: a duplicated commit must not
+                     change the shard's data again (it would overwrite whatever committed in between) *)
+                  else if pair_mem (tx, sh) (o_applied o) && negb (loN_eqb (pd_store (nth_pd pre sh)) (pd_store (nth_pd post sh))) then None
                   else
                     let others := filter (fun t => negb (N.eqb t tx) && keys_meet (reg_ops o tx sh) (reg_ops o t sh))
                                          (pd_prepared (nth_pd pre sh)) in
